@@ -332,3 +332,120 @@ func headRPCs(r []C14RPC) []C14RPC {
 }
 
 func TestC14(t *testing.T) { checkProp(t, "C14", "main", genC14, execC14) }
+
+// ---- the server side of a connection is replaced under running streams -------------------------
+//
+// Behind a Demux the server's end of a client's connection can be cancelled and re-created (Cancel(key), next envelope
+// opens a new logical connection with a new Serve). The new Serve knows nothing of the client's streams and answers
+// their next message with a reset. Each such RPC must then end on the client and leave nothing registered - on either
+// side.
+
+type C14Restart struct {
+	Streams int  `json:"streams"` // bidi streams running when the server side is replaced (1..4)
+	Unary   int  `json:"unary"`   // unary calls made afterwards (0..2), which must work
+	Ser     bool `json:"ser"`
+	Stats   bool `json:"stats,omitempty"`
+}
+
+func genC14Restart(t *rapid.T) C14Restart {
+	return C14Restart{Streams: rapid.IntRange(1, 4).Draw(t, "streams"), Unary: rapid.IntRange(0, 2).Draw(t, "unary"), Ser: rapid.Bool().Draw(t, "ser"), Stats: rapid.IntRange(0, 3).Draw(t, "stats") == 0}
+}
+
+func execC14Restart(t *testing.T, c C14Restart) (v Verdict) {
+	ends := make([]*kit.ErrObs, c.Streams)
+	unaryOK := 0
+	var mu sync.Mutex
+	res := kit.Bubble(t, func() {
+		svc := kit.NewSvc()
+		svc.Unary("u", func(ctx context.Context, req []byte) ([]byte, error) { return req, nil })
+		svc.Stream("w", true, true, func(s grpcServerStream) error {
+			for {
+				b, err := kit.RecvBytes(s)
+				if err != nil {
+					return nil
+				}
+				if err := kit.SendBytes(s, b); err != nil {
+					return err
+				}
+			}
+		})
+		w := kit.NewWorld(kit.Topo{Kind: "demux", Serialize: c.Ser, Clients: 1, Stats: c.Stats}, svc, nil, nil)
+		cc := w.CC[0]
+		next := make(chan struct{})
+		var wg sync.WaitGroup
+		for i := 0; i < c.Streams; i++ {
+			i := i
+			wg.Add(1)
+			go func() {
+				defer wg.Done()
+				ctx, cancel := context.WithTimeout(context.Background(), time.Hour)
+				defer cancel()
+				cs, err := cc.NewStream(ctx, kit.StreamDescFor(kit.KindBidi), kit.FullMethod("w"))
+				if err != nil {
+					e := kit.Observe(err)
+					mu.Lock()
+					ends[i] = &e
+					mu.Unlock()
+					return
+				}
+				_ = kit.SendBytes(cs, []byte{1})
+				_, _ = kit.RecvBytes(cs) // the stream is up and running
+				<-next
+				_ = kit.SendBytes(cs, []byte{2}) // lands at a server instance that has never heard of this stream
+				for k := 0; k < 4; k++ {
+					if _, err := kit.RecvBytes(cs); err != nil {
+						e := kit.Observe(err)
+						mu.Lock()
+						ends[i] = &e
+						mu.Unlock()
+						return
+					}
+				}
+			}()
+		}
+		kit.Settle()
+		w.Demux.Cancel(kit.ClientName(0)) // the server's end of this client's connection goes away ...
+		kit.Settle()
+		close(next) // ... and the client, which cannot know, carries on
+		kit.Settle()
+		wgDone := make(chan struct{})
+		go func() { wg.Wait(); close(wgDone) }()
+		kit.Settle()
+		select {
+		case <-wgDone:
+		default:
+			v.failf("streams that were answered with a reset by the new server instance did not end on the client")
+		}
+		for i := 0; i < c.Unary; i++ {
+			ctx, cancel := context.WithTimeout(context.Background(), time.Hour)
+			if b, err := kit.Invoke(ctx, cc, "u", []byte{byte(i)}); err == nil && len(b) == 1 && b[0] == byte(i) {
+				unaryOK++
+			}
+			cancel()
+		}
+		kit.Settle()
+		if n := goat.VerifClientCalls(cc); n != 0 && v.Fail == "" {
+			v.failf("%d calls still registered in the client connection although every RPC has ended", n)
+		}
+		if n := goat.VerifServerStreams(); n != 0 && v.Fail == "" {
+			v.failf("%d streams still registered on the server although every RPC has ended", n)
+		}
+		w.Shutdown()
+		kit.Settle()
+	})
+	if res.Panic != nil {
+		v.failf("panic: %v\n%s", res.Panic, res.Stack)
+	}
+	for i, e := range ends {
+		if e != nil && e.EOF {
+			v.failf("stream %d, reset by a server instance that did not know it, ended in a clean io.EOF", i)
+		}
+	}
+	if unaryOK != c.Unary {
+		v.failf("%d of %d unary calls after the replacement succeeded", unaryOK, c.Unary)
+	}
+	v.Info = kit.CaseInfo{Labels: []string{"server-side-replaced"}, NonTrivial: true, Key: fmt.Sprintf("%+v", c), Sample: c}
+	return
+}
+
+func TestC14Restart(t *testing.T) { checkProp(t, "C14", "restart", genC14Restart, execC14Restart) }
